@@ -23,7 +23,7 @@ RULE = ("cases = (a) a 6-statement script (table with inline and table-level ref
         "(exhaustive); (c) every grammar keyword x 3 spellings as undelimited table, schema, constraint, index, sequence, type, "
         "referenced-table and ALTER-target name (exhaustive; the words that fail on the pinned tree are listed known findings). "
         "Non-trivial = at least one identifier is delimited, mixed-case or keyword-shaped; distinct = distinct (DDL, setting)."
-        " Added after seeded defects: keyword-shaped column names re-used in 10 key/reference/index/ALTER list positions, names that merely start with a keyword (every keyword x 4 suffixes x 7 positions), names with # $ @, ARRAY-prefixed names (exact-spelling known findings), normalize_names handed over through parse_from_file, a column renamed by ALTER (old and new name as roles), a project-qualified three-part table name and reference (roles P, T3), 30% of the scripts in the compact layout (nothing after commas), a sort direction on the second key column, a CREATE SCHEMA name (role SC).")
+        " Added after seeded defects: keyword-shaped column names re-used in 10 key/reference/index/ALTER list positions, names that merely start with a keyword (every keyword x 4 suffixes x 7 positions), names with # $ @, ARRAY-prefixed names (exact-spelling known findings), normalize_names handed over through parse_from_file, a column renamed by ALTER (old and new name as roles), a project-qualified three-part table name and reference (roles P, T3), 30% of the scripts in the compact layout (nothing after commas), a sort direction on the second key column, a CREATE SCHEMA name (role SC), every third script also in a rotating dialect output mode (names as in the default mode).")
 ASSUMPTIONS = ["each identifier is unique within its script (so an identifier-aware textual strip is unambiguous)",
                "an identifier keeps the same spelling everywhere it is used in one script"]
 MIN_EVENTS = {"statements": 100, "run_return": 100}
@@ -221,6 +221,33 @@ def check_positions(ctx, case):
                               {"path": role, "observed": short(got, 200), "expected": exp})
                 return
     n = ctx.obs["relational_pairs"]
+    if n % 3 == 0:
+        # the same names in a dialect output mode: a mode selects fields, it does not re-spell identifiers (both normalize_names settings)
+        from vf.checks.c10 import ren
+        mode = ["mysql", "postgres", "mssql", "oracle", "hql", "redshift", "snowflake", "spark_sql", "ibm_db2"][(n // 3) % 9]
+        for nn in (True, False):
+            rm = parse(case["ddl"], {"normalize_names": nn}, output_mode=mode)
+            ctx.evaluated()
+            ctx.obs["positions_in_dialect_mode"] += 1
+            if rm[0] != "ok":
+                ctx.violation("exception_in_dialect_mode", dict(case, normalize_names=nn, mode=mode), {"mode": mode, "exception": rm[1], "message": rm[2]})
+                break
+            em, eb = [ren(e) for e in entities(rm[1])], results[nn]
+            if len(em) != len(eb):
+                ctx.violation("entity_count", dict(case, normalize_names=nn, mode=mode), {"mode": mode, "observed": len(em), "expected": len(eb)})
+                break
+            bad = None
+            for a, b in zip(em, eb):
+                for k in ("table_name", "schema", "primary_key", "sequence_name", "type_name", "domain_name", "schema_name"):
+                    if k in b and a.get(k) != b.get(k):
+                        bad = (k, a.get(k), b.get(k))
+                if "columns" in b and [c.get("name") for c in a.get("columns", [])] != [c.get("name") for c in b["columns"]]:
+                    bad = ("columns", [c.get("name") for c in a.get("columns", [])], [c.get("name") for c in b["columns"]])
+                if "index" in b and [(i.get("index_name"), i.get("columns")) for i in a.get("index", [])] != [(i.get("index_name"), i.get("columns")) for i in b["index"]]:
+                    bad = ("index", a.get("index"), b["index"])
+            if bad:
+                ctx.violation("names_differ_in_dialect_mode:" + bad[0], dict(case, normalize_names=nn, mode=mode), {"mode": mode, "normalize_names": nn, "field": bad[0], "observed": short(bad[1], 200), "default_mode": short(bad[2], 200)})
+                break
     if n % 5 == 0:
         # the same setting handed over through parse_from_file(parser_settings=...) must strip / keep exactly like the constructor flag
         from vf.run import parse_via_file
